@@ -72,6 +72,7 @@ M = [
  ("C15-line-off-by-one-in-if", "C15", "src/directive.rs", "                            Err(e) => bail!(\"{} in {}\", e, point),\n                        };\n                        if value == 0 {", "                            Err(e) => bail!(\"{} in line: {}\", e, point.line_num + 1),\n                        };\n                        if value == 0 {", ".if errors name the following line"),
  # ---- C16 robustness
  ("C16-undef-index", "C16", "src/directive.rs", "                    if let Some(Operand::E(Expr::Ident(name))) = values.first() {\n                        context.push_to_last((point, Item::Undef(name.clone())))", "                    if let Operand::E(Expr::Ident(name)) = &values[0] {\n                        context.push_to_last((point, Item::Undef(name.clone())))", ".undef without operand panics again"),
+ ("C16-includepath-unwrap", "C16", "src/directive.rs", "let mut current_path = current_path\n                                .parent()\n                                .map(|p| p.to_path_buf())\n                                .unwrap_or_default();", "let mut current_path = current_path.parent().unwrap().to_path_buf();", "relative .includepath in a macro body panics again"),
  ("C16-line-limit-huge", "C16", "src/parser.rs", "pub const MAX_LINE_OPERATORS: usize = 500;", "pub const MAX_LINE_OPERATORS: usize = 500_000;", "expression ladders overflow the stack again"),
  ("C16-macro-depth-huge", "C16", "src/builder/pass0.rs", "const MAX_MACRO_DEPTH: usize = 128;", "const MAX_MACRO_DEPTH: usize = 128_000_000;", "recursive macros run away again"),
  # ---- C17 independence
